@@ -197,9 +197,25 @@ package eval
 //@   ensures [scopevar-restored] in(old(x.Scopevar), assign) == old(in(x.Scopevar, assign))
 //@   ensures [scopevar-value] old(in(x.Scopevar, assign)) ==> assign[old(x.Scopevar)] == old(assign[x.Scopevar])
 
+// The set form of a transform is evaluated with the de-duplicating appender, the list form with the plain one.
+//@ func evalTransformUsingValueSet
+//@   maypanic
+//@   requires assign != nil && x != nil
+//@   ensures [scopevar-restored] in(old(x.Scopevar), assign) == old(in(x.Scopevar, assign))
+//@   ensures [scopevar-value] old(in(x.Scopevar, assign)) ==> assign[old(x.Scopevar)] == old(assign[x.Scopevar])
+//@   assert @call:eval.evalTransformUsingAppender [with-the-set-appender] arg4 == setAppender
+//@ func evalTransformUsingValueList
+//@   maypanic
+//@   requires assign != nil && x != nil
+//@   ensures [scopevar-restored] in(old(x.Scopevar), assign) == old(in(x.Scopevar, assign))
+//@   ensures [scopevar-value] old(in(x.Scopevar, assign)) ==> assign[old(x.Scopevar)] == old(assign[x.Scopevar])
+//@   assert @call:eval.evalTransformUsingAppender [with-the-list-appender] arg4 == listAppender
+
 //@ func (*exprEval).evalTransform
 //@   maypanic
 //@   requires assign != nil && x != nil && x.Transform != nil && e != nil
+//@   assert @call:eval.evalTransformUsingValueSet [set-typed-result-uses-set-semantics] tagof(e.Type.Type) == typeid("*sysl.Type_Set")
+//@   assert @call:eval.evalTransformUsingValueList [other-results-keep-every-element] tagof(e.Type.Type) != typeid("*sysl.Type_Set")
 //@   mark @after:eval.Eval#1 afterArg
 //@   ensures [scopevar-restored] old(x.Transform.Arg.GetName()) != "." ==> in(at("afterArg", x.Transform.Scopevar), assign) == at("afterArg", in(x.Transform.Scopevar, assign))
 //@   ensures [scopevar-value] old(x.Transform.Arg.GetName()) != "." && in(at("afterArg", x.Transform.Scopevar), assign) ==> assign[at("afterArg", x.Transform.Scopevar)] == at("afterArg", assign[x.Transform.Scopevar])
